@@ -152,3 +152,23 @@ def _(I, args, kwargs):
         if k not in names:
             raise PyRaise(mk_exc(TypeError, f"unexpected field {k}"))
     return SObj(cls, {**cur, **kwargs}, frozen=frozen)
+
+
+# int.from_bytes on symbolic bytes: an uninterpreted non-negative function of the bytes (its exact value is
+# never used by the functions under contract: it is stored or compared for equality only)
+_from_bytes_le = SpecFn("int_from_bytes_le", ["bytes"], "int", lambda d: int.from_bytes(bytes(d), "little"),
+                        lambda I, ts, r: [r >= 0])
+
+
+@external("builtins.int.from_bytes")
+def _(I, args, kwargs):
+    order = kwargs.get("byteorder", args[1] if len(args) > 1 else "big")
+    from pyvc.interp import _has_sym
+
+    if not _has_sym(args[0]):
+        return int.from_bytes(bytes(args[0]), order, **{k: v for k, v in kwargs.items() if k == "signed"})
+    if order != "little" or kwargs.get("signed"):
+        from pyvc.ctx import Unsupported
+
+        raise Unsupported("int.from_bytes big-endian / signed on symbolic bytes")
+    return _from_bytes_le.apply(I, [args[0]])
